@@ -402,7 +402,12 @@ pub fn c04(a: &Analysis, v: &mut Verdict) {
             let bs = batches_of_collect(a, c);
             // a cancel parked behind a full ring and then lost when its thread exited with the
             // ring still full: C09 keeps signals only "while the thread lives"
-            if !bs.is_empty() && collect_signal_lost(a, c, 1) {
+            let lost_at_exit = a
+                .collect_ids
+                .get(&c)
+                .map(|id| a.cmds.iter().any(|x| x.kind == 1 && x.collect == *id && x.lost && x.force && x.parked))
+                .unwrap_or(false);
+            if !bs.is_empty() && lost_at_exit {
                 v.probe("cancel_lost_at_exit", 1);
             } else if !bs.is_empty() {
                 let x = outer(col.cancels[0]);
@@ -898,6 +903,16 @@ pub fn c08(a: &Analysis, v: &mut Verdict) {
             }
             if collect_signal_lost(a, c, 2) {
                 exempt = true;
+            }
+            // a finish/cancel signal parked behind a full ring is kept but only travels with the
+            // thread's next command or at its exit: until then the trace is legitimately retained
+            if let Some(id) = a.collect_ids.get(&c) {
+                let f1s = a.hist.ops[f1].start_step;
+                if a.cmds.iter().any(|x| {
+                    (x.kind == 2 || x.kind == 1) && x.collect == *id && x.parked && x.entered.map(|li| a.hist.out.log[li].step >= f1s).unwrap_or(true)
+                }) {
+                    exempt = true;
+                }
             }
         }
         if unfinished || exempt {
